@@ -107,7 +107,7 @@ func parseSingleConstraint(c string) ([]*constraint, error) {
 	}
 
 	// Handle x-range (1.x, 1.2.x)
-	if strings.Contains(c, "x") || strings.Contains(c, "X") {
+	if isXRange(c) {
 		return parseXRange(c)
 	}
 
@@ -168,6 +168,22 @@ func parseTildeRange(version string) ([]*constraint, error) {
 		{operator: ">=", version: v.normalize()},
 		{operator: "<", version: fmt.Sprintf("%d.%d.0-0", v.major, v.minor+1)},
 	}, nil
+}
+
+// isXRange reports whether one of the dot-separated components of the
+// version core (the part before any prerelease or build metadata) is an
+// x-range placeholder. A plain 'x' inside an identifier (1.0.0-next.1) is not.
+func isXRange(c string) bool {
+	core := c
+	if i := strings.IndexAny(core, "-+"); i >= 0 {
+		core = core[:i]
+	}
+	for _, part := range strings.Split(core, ".") {
+		if part == "x" || part == "X" {
+			return true
+		}
+	}
+	return false
 }
 
 // parseXRange handles x-ranges (1.x, 1.2.x)
